@@ -362,7 +362,12 @@ type testSpec struct {
 	args func(g *G) []string
 }
 
-func wordArg(g *G) []string { return []string{caseWords[g.T.Pick("caseword", len(caseWords))]} }
+func wordArg(g *G) []string {
+	if g.T.Chance("error_word_argument", 1, 10) {
+		return []string{"@(1/0)"} // an argument expression that fails: the case can never match
+	}
+	return []string{caseWords[g.T.Pick("caseword", len(caseWords))]}
+}
 func numArg(g *G) []string {
 	return []string{[]string{"10", "0", "-1", "18", "3.5", "@fields.age", "@results.age", "abc", "@(1/0)"}[g.T.Pick("numarg", 9)]}
 }
